@@ -167,6 +167,12 @@ LoadFresh == /\ file.exists
              /\ ret' = R("ok", 0) /\ UNCHANGED <<file, other>>
              /\ Log([ev |-> "load_fresh"])
 
+(* a SECOND parameters object is filled from this one's dictionary (q.set_parameters(p.get_parameters())), then changed: the two
+   objects are independent - nothing of this object moves; what comes back is the value read from the second object *)
+Fork(n, v) == /\ ret' = R("value", v)
+              /\ UNCHANGED <<pars, varylist, variable_list, stepsizes, file, other>>
+              /\ Log([ev |-> "fork", n |-> n, v |-> v])
+
 (* the module-level reader: a new object filled from the file *)
 ReadParFile == /\ file.exists
                /\ pars' = TypeCheck(LoadLines(<<>>, file.lines))
@@ -181,7 +187,7 @@ Dicts == {[n \in S |-> t] : S \in {{NameSeq[1]}, {NameSeq[Len(NameSeq)]}, Names}
 
 Kinds == {"addpar", "set", "set_parameters", "get", "set_varylist", "set_variable_values", "get_variable_values",
           "update_other", "update_yourself", "other_set", "save", "load", "load_fresh",
-          "addpar_sl", "construct", "get_variable_stepsizes", "get_variable_list", "get_parameters", "read_par_file"}
+          "addpar_sl", "construct", "get_variable_stepsizes", "get_variable_list", "get_parameters", "read_par_file", "fork"}
 OfKind(k) ==
   CASE k = "addpar" -> \E n \in Names, v \in TokSet, vary \in Bools, cv \in Bools : AddPar(n, v, vary, cv, Toks[1])
     [] k = "set" -> \E n \in Names, v \in TokSet : Set(n, v)
@@ -202,6 +208,7 @@ OfKind(k) ==
     [] k = "get_variable_list" -> GetVariableList
     [] k = "get_parameters" -> GetParameters
     [] k = "read_par_file" -> ReadParFile
+    [] k = "fork" -> \E n \in Names, v \in TokSet : Fork(n, v)
 Free == IF kind = "none"
           THEN \E k \in Kinds : kind' = k /\ UNCHANGED <<pars, varylist, variable_list, stepsizes, file, other, ret, hist>>
           ELSE OfKind(kind) /\ kind' = "none"
